@@ -97,6 +97,11 @@
 (*             True iff a read would be served.  DEVIATION DevStale:        *)
 (*             close() does not reset `_raw`, so is_open stays True (and    *)
 (*             `with sr:` on a closed reader does not re-open it).          *)
+(*  LSync      read_sync_digital: warning "Sync trace not labeled in           *)
+(*             metadata. Assuming last trace" -> a reader without metadata  *)
+(*             answers read_sync / read(sync=True) from the last column.    *)
+(*             DEVIATION DevFlatSync: the column list is then taken from    *)
+(*             the absent metadata: AttributeError.                         *)
 (*  LFlat      class D "To open a flat binary file: Reader(bin, nc=, ns=,    *)
 (*             fs=)" + LCtor: open=False gives a closed reader.  DEVIATION  *)
 (*             DevFlatUnset: `_raw` is never initialised on that branch:    *)
@@ -276,7 +281,7 @@ PinOut(sys) == IF sys = "3A" THEN PinOut3A ELSE PinOut3B
 \* int(pin[3:]) and int(pin[2:]) on the pin names of the universe (-2 = ValueError); the harness re-derives both tables in Python
 Bad == -2
 Int3 == [p \in {"P0.1", "P0.12", "pin07", "DI5"} |-> CASE p = "P0.1" -> 1 [] p = "P0.12" -> 12 [] p = "pin07" -> 7 [] OTHER -> Bad]
-Int2 == [p \in {"AI0", "AI2", "AI10", "AIN"} |-> CASE p = "AI0" -> 0 [] p = "AI2" -> 2 [] p = "AI10" -> 10 [] OTHER -> Bad]
+Int2 == [p \in {"AI0", "AI1", "AI2", "AI10", "AIN"} |-> CASE p = "AI0" -> 0 [] p = "AI1" -> 1 [] p = "AI2" -> 2 [] p = "AI10" -> 10 [] OTHER -> Bad]
 
 Upd(m, name, line) == [n \in DOMAIN m \cup {name} |-> IF n = name THEN line ELSE m[n]]
 EmptyMap == [n \in {} |-> 0]
@@ -420,6 +425,13 @@ RdCall(st, a) ==
             ELSE IF io = "False" THEN <<st, "IOError">>
             ELSE IF st.h = "live" THEN <<st, "data">> ELSE <<st, "DANGER">>
       [] a = "isopen" -> <<st, io>>
+\* read_sync / read(sync=True) -> read_sync_digital: `if not self.meta: _logger.warning("Sync trace not labeled in metadata.
+\* Assuming last trace")` and then the sync columns are looked up in the (absent) metadata all the same
+ImplReadSync(kind, st) ==
+    IF IsOpenVal(st) = "AttributeError" THEN "AttributeError"
+    ELSE IF IsOpenVal(st) = "False" THEN "IOError"
+    ELSE IF st.h # "live" THEN "DANGER"
+    ELSE IF kind = "flat" THEN "AttributeError" ELSE "data"
 RECURSIVE RdRun(_, _, _)
 RdRun(st, seq, i) ==      \* the observations of a call sequence: <<obs, h after, isopen after>> per call
     IF i > Len(seq) THEN <<>>
@@ -434,6 +446,8 @@ LReleaseP(a, obs, hafter) == (a \in {"close", "exit"} /\ obs = "ok") => hafter #
 LTruthfulP(hafter, ioafter) == ioafter = (IF hafter = "live" THEN "True" ELSE "False")
 DevStale(hafter, ioafter) == hafter = "closed" /\ ioafter = "True"
 DevFlatUnset(kind, hafter, ioafter) == kind = "flat" /\ hafter = "none" /\ ioafter = "AttributeError"
+LSyncP(obs) == obs = "data"           \* on an open reader, with or without metadata
+DevFlatSync(kind, obs) == kind = "flat" /\ obs = "AttributeError"
 LWithP(a, obs, hafter) == (a = "enter" /\ obs = "ok") => hafter = "live"
 
 ReaderInit == s \in {[kind |-> k, open |-> o, st |-> RdNew(k, o), n |-> 0, a |-> "new", obs |-> "ok", everb |-> FALSE] :
@@ -452,6 +466,7 @@ LCtor == (LOn /\ s.a = "new") => LCtorP(s.kind, s.open, s.st.h, IsOpenVal(s.st))
 LNotOpen == LOn => (LNotOpenStrictP(s.everb, s.a, s.obs) \/ DevFlatUnset(s.kind, s.st.h, IsOpenVal(s.st)))
 LRelease == LOn => LReleaseP(s.a, s.obs, s.st.h)
 LTruthful == LOn => (LTruthfulP(s.st.h, IsOpenVal(s.st)) \/ DevStale(s.st.h, IsOpenVal(s.st)) \/ DevFlatUnset(s.kind, s.st.h, IsOpenVal(s.st)))
+LSync == (LOn /\ s.st.h = "live") => (LSyncP(ImplReadSync(s.kind, s.st)) \/ DevFlatSync(s.kind, ImplReadSync(s.kind, s.st)))
 LWith == LOn => (LWithP(s.a, s.obs, s.st.h) \/ DevStale(s.st.h, IsOpenVal(s.st)))
 
 -----------------------------------------------------------------------------
